@@ -81,6 +81,39 @@ def optional_semicolons(tokens, rnd, p=0.5):
     return out
 
 
+def paren_blocks(tokens, rnd, p=0.5):
+    """Redundant parentheses around a do .. end block that stands as an operand (after an assignment or arithmetic operator, an opening
+    bracket or a comma)."""
+    out = list(tokens)
+    i = 0
+    res = []
+    close_at = {}
+    n = len(out)
+    for i, t in enumerate(out):
+        if t[1] == "keyword" and t[0] == "do" and i > 0:
+            pv, pty = out[i - 1][0], out[i - 1][1]
+            if ((pty == "operator" and pv in ("=", "+", "-", "*", "+=", "-=", "==")) or (pty == "interpunction" and pv in ("(", "[", ","))) and rnd.random() < p:
+                depth = 0
+                for j in range(i, n):
+                    if out[j][1] == "keyword" and out[j][0] == "do":
+                        depth += 1
+                    elif out[j][1] == "keyword" and out[j][0] == "end":
+                        depth -= 1
+                        if depth == 0:
+                            close_at[j] = close_at.get(j, 0) + 1
+                            res.append(i)
+                            break
+    opens = set(res)
+    final = []
+    for i, t in enumerate(out):
+        if i in opens:
+            final.append(("(", "interpunction"))
+        final.append(t)
+        for _ in range(close_at.get(i, 0)):
+            final.append((")", "interpunction"))
+    return final
+
+
 def render(tokens, rnd, layout=True, literal_spelling=True, parens=True, trailing_semicolon=True):
     """tokens: [(value, type, ...)] -> (text, [(line, col) of each input token])"""
     parts = []   # (text, index of the input token or None)
